@@ -16,7 +16,7 @@ THOROUGH = QUICK + [(1, 4, 3), (2, 4, 2), (2, 3, 3), (3, 3, 3), (3, 4, 2), (4, 3
 def describe(tier):
     cfg = QUICK if tier == "quick" else THOROUGH
     return {
-        "rule": "empty-entry family: 1..3 dimensions (2 rows) where one dimension additionally carries an explicitly empty entry - nothing may be presented for it; long family: N=18(24) rows, one dimension holding a contiguous run of 8..10(17) rows of one category and another with 1-2 sparse rows, both orders and a 3-dimension variant; populous family: 17..70(260) rows under every ordered pair (and four triples) of six row patterns (constant, r mod 2, r mod 3, a mixing pattern, halves, reversed r mod 3) so that every cell holds many rows, three choices of common values (every third case also with every stored row-id array as a non-contiguous view); a callback that calls interactions() on the same cube while being called; HIGH family: 1-3 dimensions of 2^32 rows with entries at 0, 1, 7, 2^31-1, 2^31, 2^32-3 .. 2^32-1; MANY family: 1500-4000 (20000) rows over dimensions of 70 / 150 / 200 categories crossed with small ones, 1-3 dimensions; and for each (D dims, N rows, E categories) in %r: every data vector over {0..E-1} per dimension and every common value in 0..E per "
+        "rule": "empty-entry family: 1..3 dimensions (2 rows) where one dimension additionally carries an explicitly empty entry - nothing may be presented for it; long family: N=18(24) rows, one dimension holding a contiguous run of 8..10(17) rows of one category and another with 1-2 sparse rows, both orders and a 3-dimension variant; populous family: 17..70(260) rows under every ordered pair (and four triples) of six row patterns (constant, r mod 2, r mod 3, a mixing pattern, halves, reversed r mod 3) so that every cell holds many rows, three choices of common values (every third case also with every stored row-id array as a non-contiguous view); HIGH family: 1-3 dimensions of 2^32 rows with entries at 0, 1, 7, 2^31-1, 2^31, 2^32-3 .. 2^32-1; MANY family: 1500-4000 (20000) rows over dimensions of 70 / 150 / 200 categories crossed with small ones, 1-3 dimensions; and for each (D dims, N rows, E categories) in %r: every data vector over {0..E-1} per dimension and every common value in 0..E per "
         "dimension (E = absent); the log of (coords, rows) delivered to interactions() and to two callbacks of walk([f, g]) must equal, as a multiset, "
         "{(c, rows(c)) : c in prod(uncommon_d u {-1}) minus all -1, rows(c) non-empty}; each row array strictly increasing uint32. "
         "Non-trivial: D >= 2 and at least one expected combination mixing a marginal and an uncommon coordinate. Distinct = distinct (data, commons)." % (cfg,),
@@ -211,24 +211,7 @@ def check(datas, commons, acc, case, fast=False, layout=None):
     except Exception as e:  # noqa
         acc.violation("walk:raised", case, repr(e))
         return exp
-    # a callback that uses the library on the SAME cube while it is being called (interactions() once, on its first invocation)
-    log4, inner = [], []
-    if len(exp) <= 200:
-        try:
-            rc = ccube(dims)
-
-            def reentrant(c, r):
-                if not inner:
-                    inner.append(rc.interactions())
-                log4.append((c, r))
-
-            rc.walk(reentrant)
-        except Exception as e:  # noqa
-            acc.violation("walk:raised", dict(case, via="re-entrant callback"), repr(e))
-            return exp
     logs = [("interactions", inter), ("walk[f,g].f", log1), ("walk[f,g].g", log2), ("walk(f)", log3)]
-    if inner:
-        logs += [("walk(re-entrant f)", log4), ("interactions() inside a callback", inner[0])]
     for name, log in logs:
         got = Counter()
         for coords, rows in log:
